@@ -20,7 +20,7 @@ class ErrorFactory:
         6: enumerations.InitiateError,
         7: enumerations.LoadDataError,
         8: enumerations.DataScopeError,
-        9: enumerations.DataScopeError,
+        9: enumerations.TaskError,
         10: enumerations.OtherError,
     }
 
